@@ -157,6 +157,17 @@ def _wrap_events():
 LoggedMock.events = _wrap_events()
 
 
+def _objects(prov):
+    """Snapshot of the mock's object table.  With real engine threads running (C15/threads) the table can change while
+    it is being iterated: try again instead of failing the harness."""
+    for _ in range(200):
+        try:
+            return list(prov._mock_fs.fs_objects())
+        except RuntimeError:
+            continue
+    return list(prov._mock_fs.fs_objects())
+
+
 class Case:
     """One engine case."""
 
@@ -362,7 +373,7 @@ class Case:
             if fo is not None and fo.contents is not None:
                 self.released.add(bytes(fo.contents))
         else:
-            for fo in list(prov._mock_fs.fs_objects()):
+            for fo in _objects(prov):
                 if fo.exists and fo.type == fo.FILE and fo.path and prov.is_subpath(info.path, fo.path, strict=True):
                     self.released.add(bytes(fo.contents))
 
@@ -415,7 +426,7 @@ class Case:
         root = self.roots[side] if root is None else root
         out = {}
         pre = root.rstrip("/") + "/"
-        for fo in prov._mock_fs.fs_objects():
+        for fo in _objects(prov):
             if not fo.exists or not fo.path:
                 continue
             if fo.path.startswith(pre):
@@ -431,7 +442,7 @@ class Case:
         root = self.roots[side]
         pre = root + "/"
         out = {}
-        for fo in prov._mock_fs.fs_objects():
+        for fo in _objects(prov):
             if not fo.exists or not fo.path:
                 continue
             if fo.path == root or fo.path.startswith(pre):
